@@ -302,21 +302,27 @@ structure BlockState where
   seen : List (Bytes × Range)         -- `tile_hash_lookup`
 deriving Repr
 
+/-- store the payload of one tile at tile-index position `i` (writer.rs:167-189): payloads shorter
+    than 1000 bytes are looked up in / added to `tile_hash_lookup`; everything else is appended -/
+def putAt (i : Nat) (s : BlockState) (payload : Bytes) : BlockState :=
+  if payload.length < 1000 then
+    match s.seen.find? (fun p => p.1 == payload) with
+    | some p => { s with index := s.index.set i p.2 }
+    | none =>
+      let rg : Range := ⟨s.blobs.length, payload.length⟩
+      ⟨s.blobs ++ payload, s.index.set i rg, (payload, rg) :: s.seen⟩
+  else
+    let rg : Range := ⟨s.blobs.length, payload.length⟩
+    ⟨s.blobs ++ payload, s.index.set i rg, s.seen⟩
+
+/-- row-major position inside a box (`get_tile_index2`) -/
+def boxPos (box : BBox) (x y : Nat) : Nat :=
+  (y - box.ymin) * (box.xmax + 1 - box.xmin) + (x - box.xmin)
+
 /-- one tile of the stream (writer.rs:162-190) -/
 def putTile (box : BBox) (s : BlockState) (t : Tile) : Outcome BlockState :=
-  let (x, y, _) := t.1
-  if !(box.contains2 x y) then .panic                 -- `get_tile_index2(..).unwrap()`
-  else
-    let i := (y - box.ymin) * (box.xmax + 1 - box.xmin) + (x - box.xmin)
-    if t.2.length < 1000 then
-      match s.seen.find? (fun p => p.1 == t.2) with
-      | some p => .ok { s with index := s.index.set i p.2 }
-      | none =>
-        let rg : Range := ⟨s.blobs.length, t.2.length⟩
-        .ok ⟨s.blobs ++ t.2, s.index.set i rg, (t.2, rg) :: s.seen⟩
-    else
-      let rg : Range := ⟨s.blobs.length, t.2.length⟩
-      .ok ⟨s.blobs ++ t.2, s.index.set i rg, s.seen⟩
+  if !(box.contains2 t.1.1 t.1.2.1) then .panic          -- `get_tile_index2(..).unwrap()`
+  else .ok (putAt (boxPos box t.1.1 t.1.2.1) s t.2)
 
 def putTiles (box : BBox) : BlockState → List Tile → Outcome BlockState
   | s, [] => .ok s
